@@ -248,7 +248,7 @@ def ss_case(rep, drv, rng, th):
 				 py={'avg': avg, 'se': se, 'analytical': ana}, oracle=bool(bad), theorem=THEOREM if not diffs else None)
 
 
-def serial_case(rep, drv, rng, th):
+def serial_case(rep, drv, rng, th, no_transit=None):
 	from stockpyl import ssm_serial
 	from stockpyl.supply_chain_network import echelon_to_local_base_stock_levels
 	import props.c07 as c07
@@ -283,9 +283,17 @@ def serial_case(rep, drv, rng, th):
 	rep.case('serial-SSM', case, nontrivial=True); rep.count('serial:N=%d' % N)
 	labels = list(range(1, N + 1))
 	spec = {'kind': 'serial', 'labels': labels, 'edges': [[j + 1, j] for j in range(1, N)], 'T': T, 'nodes': {}}
+	# in-transit stock is charged at the shipper's holding rate by default; an explicit in-transit rate of 0 switches that off
+	if no_transit is None:
+		no_transit = rng.random() < .4
+	case['in_transit_holding_cost'] = 0 if no_transit else None
 	for j in labels:
 		oj = olts[j - 1]
 		spec['nodes'][str(j)] = node_spec({'t': 'BS', 'a': '0'}, Ls[j - 1] - oj, hloc[j - 1], p if j == 1 else None, 0, ext=(j == N), demand=(j == 1), olt=oj)
+	if no_transit:
+		for j in labels:
+			spec['nodes'][str(j)]['ht'] = '0'
+		rep.count('serial:in-transit-rate-0')
 	net0, _ = simlib.build_py(spec)
 	Sloc = echelon_to_local_base_stock_levels(net0, Sech)
 	for j in labels:
@@ -321,13 +329,18 @@ def serial_case(rep, drv, rng, th):
 			# echelon inventory (on hand + in transit downstream) uses IL_1 net of backorders
 			want = sum(hech[j] * ech[j] for j in range(N)) + (p + hloc[0]) * max(-ilv[0], 0)
 			# upstream stages' backorders are owed to downstream stages, not negative stock: use on-hand for j >= 2
-			onhand = sum(hloc[j] * (max(ilv[j], 0) + (it[j - 1] if j > 0 else 0.0)) for j in range(N)) + p * max(-ilv[0], 0)
+			onhand = sum(hloc[j] * (max(ilv[j], 0) + (0.0 if no_transit else (it[j - 1] if j > 0 else 0.0))) for j in range(N)) + p * max(-ilv[0], 0)
 			if abs(c - onhand) > 1e-9 * (1 + abs(c)):
 				bad.append('t=%d: total cost charged %r but sum_j h_j(IL_j+ + in transit to its customer) + p*IL_1- = %r' % (t, c, onhand)); break
 	warm = sum(Ls) + 5
 	avg, se = band(tot, warm)
+	if no_transit:
+		# the SSM cost charges the pipeline into stage j (mean lam * L_j units) at the local rate of the stage that ships it
+		ana_sim = ana - sum(hloc[j] * lam * Ls[j - 1] for j in range(1, N))
+	else:
+		ana_sim = ana
 	trunc = 2e-4 * (p + sum(hech)) * N + 1e-6
-	dev = abs(avg - ana)
+	dev = abs(avg - ana_sim)
 	rep.count('serial:long-run-compared')
 	rep.count('serial:dev<=2se' if dev <= 2 * se else ('serial:dev<=4se' if dev <= 4 * se else 'serial:dev>4se'))
 	rep.tol_cmp += 1
@@ -335,7 +348,7 @@ def serial_case(rep, drv, rng, th):
 	if abs(ref - ana) > trunc:
 		bad.append('expected_cost(%s) = %r but the exact top-down evaluation of the echelon policy is %r' % (Sech, ana, ref))
 	if dev > 8 * se + trunc:
-		bad.append('long-run average cost %.6g over %d periods vs SSM expected cost %.6g: off by %.1f standard errors' % (avg, T - warm, ana, dev / max(se, 1e-300)))
+		bad.append('long-run average cost %.6g over %d periods vs SSM expected cost %.6g%s: off by %.1f standard errors' % (avg, T - warm, ana_sim, ' (pipeline term removed: in-transit rate 0)' if no_transit else '', dev / max(se, 1e-300)))
 	if bad:
 		rep.diff('serial-SSM', '; '.join(bad[:3]), case, py={'avg': avg, 'se': se, 'analytical': ana}, oracle=True, theorem=THEOREM)
 
@@ -350,8 +363,8 @@ def run(rep, drv):
 		bs_case(rep, drv, rng, th)
 	for k in range(40 if th else 8):
 		ss_case(rep, drv, rng, th)
-	for k in range(12 if th else 3):
-		serial_case(rep, drv, rng, th)
+	for k in range(12 if th else 4):
+		serial_case(rep, drv, rng, th, no_transit=(k % 2 == 1))
 
 
 def replay(rep, drv, doc):
